@@ -10,11 +10,11 @@ Local Open Scope N_scope.
 
 (** * [hint::cautious] *)
 Lemma cautious_spec sz hint :
-  0 < sz -> sz < U32 ->
+  0 < sz ->
   exists c0, cautious sz hint = Ok c0 /\
              c0 * sz <= N.max 4096 sz /\ c0 <= N.max hint 1 /\ 1 <= c0.
 Proof.
-  intros H0 H1. unfold cautious. rewrite N.mod_small by exact H1.
+  intros H0. unfold cautious.
   destruct (N.eqb_spec sz 0); [lia|].
   eexists. split; [reflexivity|].
   assert (Hd : sz * (4096 / sz) <= 4096) by (apply N.mul_div_le; lia).
@@ -24,9 +24,9 @@ Proof.
   lia.
 Qed.
 
-(** the hypothesis is needed: a size that is a multiple of 2^32 divides by zero *)
-Lemma cautious_div0 k hint : cautious (k * U32) hint = Panic P_DIV0.
-Proof. unfold cautious. rewrite N.mod_mul by (unfold U32; lia). reflexivity. Qed.
+(** the hypothesis is needed: a zero-sized element divides by zero *)
+Lemma cautious_div0 hint : cautious 0 hint = Panic P_DIV0.
+Proof. reflexivity. Qed.
 
 (** * No panic *)
 Theorem cdec_no_panic sz c t bs w : sz_ok sz -> snd (cdec sz c t bs) <> Panic w.
